@@ -481,7 +481,8 @@ fn run_ff(ctx: &mut Ctx, frs: &[F], lwv: &[f64], greedy: bool) {
 pub fn walg_stream(ctx: &mut Ctx, greedy: bool) {
     let vocab: &[&str] = &["a", "ab", "abc", "abcd", "Ｈ", "é", "\u{301}", "", "x-", "字字"];
     for _ in 0..ctx.n(15000, 400_000) {
-        let n = ctx.rng.below(7);
+        let long = ctx.rng.chance(1, 6);
+        let n = if long { 20 + ctx.rng.below(40) } else { ctx.rng.below(7) };
         let mut words: Vec<Word<'static>> = Vec::new();
         for _ in 0..n {
             let mut w = Word::from(*ctx.rng.pick(vocab));
@@ -490,14 +491,18 @@ pub fn walg_stream(ctx: &mut Ctx, greedy: bool) {
             words.push(w);
         }
         let total: usize = words.iter().map(|w| w.width() as usize + w.whitespace.len()).sum();
-        let lws: Vec<usize> = match ctx.rng.below(6) {
+        let lws: Vec<usize> = if long {
+            // many listed widths, all different: line k must use the k-th one
+            let m = 3 + ctx.rng.below(14);
+            (0..m).map(|k| 4 + ((k * 7 + ctx.rng.below(3)) % 11)).collect()
+        } else { match ctx.rng.below(6) {
             0 => vec![],
             1 => vec![total],
             2 => vec![total.saturating_sub(1)],
             3 => vec![total + 1, 2],
             4 => vec![ctx.rng.below(8)],
             _ => vec![ctx.rng.below(8), ctx.rng.below(8)],
-        };
+        } };
         let alg = if cfg!(feature = "full") && !greedy && ctx.rng.chance(1, 2) { 'o' } else { 'f' };
         let pen = crate::opt::DEFAULT_PEN;
         let (op, real) = op_walg(alg, pen, &words, &lws);
@@ -536,9 +541,17 @@ pub fn c06(ctx: &mut Ctx) {
     walg_stream(ctx, false);
     #[cfg(feature = "full")]
     {
-        for _ in 0..ctx.n(30000, 1_000_000) {
-            let kind = ctx.rng.below(8);
-            let frs = frags(&mut ctx.rng, kind, 10);
+        for it in 0..ctx.n(30000, 1_000_000) {
+            let mut kind = ctx.rng.below(8);
+            let mut frs = frags(&mut ctx.rng, kind, 10);
+            if it % 1500 == 1499 {
+                // long inputs: lengths around the powers of two (block-wise or buffered processing
+                // changes behaviour there)
+                kind = 1;
+                let n = [255usize, 256, 257, 511, 512, 1023, 1024, 1025, 2048, 2049][ctx.rng.below(10)];
+                frs = (0..n).map(|_| F(1.0 + ctx.rng.below(6) as f64, 1.0, 0.0)).collect();
+                ctx.count("long_fragment_list");
+            }
             let lwv = lws(&mut ctx.rng, kind);
             let pen = gen::penalties(&mut ctx.rng);
             let (req, out, rows) = op_of(&frs, &lwv, pen);
